@@ -353,6 +353,9 @@ func readRec(rd *bufio.Reader) (*Rec, error) {
 
 func finish(root string, c *Check, tier string, seed int64, units []Unit, recs []*Rec, crashes []Violation, wall, budget time.Duration) int {
 	ff := loadFindings(root)
+	if out := os.Getenv("VERIF_OUT"); out != "" {
+		root = out // evidence and replay files of runs against a scratch tree go elsewhere
+	}
 	known := map[string]Finding{}
 	for _, f := range ff.Known {
 		if f.Property == c.ID {
